@@ -16,52 +16,52 @@
 (* every step (spec -> code).                                               *)
 (***************************************************************************)
 EXTENDS Naturals, Sequences, TLC
-CONSTANTS Opts,        \* option sets a parser can be constructed with, e.g. {"lr", "glr", "slr"}
+CONSTANTS Files,       \* the grammar files: the root, a directly imported one, one imported only transitively
+          Opts,        \* option sets a parser can be constructed with, e.g. {"lr", "glr", "slr"}
           Unresolved,  \* option sets whose tables keep conflicts (GLR defaults, pglr compile): loading one into an LR parser fails its conflict check
           LRKinds,     \* option sets that are LR parsers (run the conflict check)
           MaxSteps
-VARIABLES clock, root, imp, pgc, last, n, obs
-vars == <<clock, root, imp, pgc, last, n, obs>>
+VARIABLES clock, files, pgc, last, n, obs
+vars == <<clock, files, pgc, last, n, obs>>
 
-Absent == [st |-> "absent", mtime |-> 0, writer |-> "-", rver |-> 0, iver |-> 0]
+Vers == [ f \in Files |-> files[f].ver ]          \* the content version vector of the grammar text
+Absent == [st |-> "absent", mtime |-> 0, writer |-> "-", vers |-> [ f \in Files |-> 0 ]]
 Init == /\ clock = 2 /\ n = 0
-        /\ root = [mtime |-> 1, ver |-> 0] /\ imp = [mtime |-> 1, ver |-> 0]
+        /\ files = [ f \in Files |-> [mtime |-> 1, ver |-> 0] ]
         /\ pgc = Absent /\ last = [op |-> "none"] /\ obs = "init|absent|-"
 Tick == n < MaxSteps /\ clock' = clock + 1 /\ n' = n + 1
-Fresh(o) == [opts |-> o, rver |-> root.ver, iver |-> imp.ver]
+Fresh(o) == [opts |-> o, vers |-> Vers]
 \* the decision of create_load_table: use the file iff it exists and no grammar file is NEWER than it
-UseCache == pgc.st # "absent" /\ pgc.mtime >= root.mtime /\ pgc.mtime >= imp.mtime
-Written(o) == [st |-> "complete", mtime |-> clock, writer |-> o, rver |-> root.ver, iver |-> imp.ver]
+UseCache == pgc.st # "absent" /\ \A f \in Files : pgc.mtime >= files[f].mtime
+Written(o) == [st |-> "complete", mtime |-> clock, writer |-> o, vers |-> Vers]
 
 Construct(o) ==
-  /\ Tick /\ UNCHANGED <<root, imp>>
+  /\ Tick /\ UNCHANGED files
   /\ IF UseCache /\ pgc.st = "complete"
      THEN /\ UNCHANGED pgc
           /\ last' = IF o \in LRKinds /\ pgc.writer \in Unresolved
                      THEN [op |-> "construct", opts |-> o, result |-> "conflicts"]        \* _check_parser on the loaded table
-                     ELSE [op |-> "construct", opts |-> o, result |-> "table", table |-> [opts |-> pgc.writer, rver |-> pgc.rver, iver |-> pgc.iver]]
+                     ELSE [op |-> "construct", opts |-> o, result |-> "table", table |-> [opts |-> pgc.writer, vers |-> pgc.vers]]
      ELSE \* no usable cache (absent, older than a grammar file, or undecodable prefix): create and save
           /\ pgc' = Written(o)
           /\ last' = [op |-> "construct", opts |-> o, result |-> "table", table |-> Fresh(o)]
 \* the process dies while save_table writes the file in place: a strict prefix stays on disk
 ConstructCrash(o) ==
-  /\ ~(UseCache /\ pgc.st = "complete") /\ Tick /\ UNCHANGED <<root, imp>>
+  /\ ~(UseCache /\ pgc.st = "complete") /\ Tick /\ UNCHANGED files
   /\ pgc' = [Written(o) EXCEPT !.st = "prefix"]
   /\ last' = [op |-> "crash", opts |-> o]
 \* pglr compile: force_create with the command line's (unresolved) options
 PglrCompile ==
-  /\ Tick /\ UNCHANGED <<root, imp>>
+  /\ Tick /\ UNCHANGED files
   /\ pgc' = Written("cli")
   /\ last' = [op |-> "compile"]
-EditRoot == Tick /\ root' = [mtime |-> clock, ver |-> root.ver + 1] /\ UNCHANGED <<imp, pgc>> /\ last' = [op |-> "edit-root"]
-EditImp == Tick /\ imp' = [mtime |-> clock, ver |-> imp.ver + 1] /\ UNCHANGED <<root, pgc>> /\ last' = [op |-> "edit-imp"]
-TouchRoot == Tick /\ root' = [root EXCEPT !.mtime = clock] /\ UNCHANGED <<imp, pgc>> /\ last' = [op |-> "touch-root"]
-TouchImp == Tick /\ imp' = [imp EXCEPT !.mtime = clock] /\ UNCHANGED <<root, pgc>> /\ last' = [op |-> "touch-imp"]
+Edit(f) == Tick /\ files' = [files EXCEPT ![f] = [mtime |-> clock, ver |-> @.ver + 1]] /\ UNCHANGED pgc /\ last' = [op |-> "edit"]
+Touch(f) == Tick /\ files' = [files EXCEPT ![f].mtime = clock] /\ UNCHANGED pgc /\ last' = [op |-> "touch"]
 
 Reply(l) ==
   IF l.op # "construct" THEN l.op
   ELSE IF l.result = "conflicts" THEN "error-conflicts"
-  ELSE IF l.table = [opts |-> l.opts, rver |-> root'.ver, iver |-> imp'.ver] THEN "table-fresh"
+  ELSE IF l.table = [opts |-> l.opts, vers |-> [ f \in Files |-> files'[f].ver ]] THEN "table-fresh"
   ELSE IF l.table.opts # l.opts THEN "table-other-options"
   ELSE "table-stale"
 OU == obs' = Reply(last') \o "|" \o pgc'.st \o "|" \o pgc'.writer
@@ -69,18 +69,16 @@ OU == obs' = Reply(last') \o "|" \o pgc'.st \o "|" \o pgc'.writer
 DoConstruct(o) == Construct(o) /\ OU
 DoCrash(o) == ConstructCrash(o) /\ OU
 DoCompile == PglrCompile /\ OU
-DoEditRoot == EditRoot /\ OU
-DoEditImp == EditImp /\ OU
-DoTouchRoot == TouchRoot /\ OU
-DoTouchImp == TouchImp /\ OU
+DoEdit(f) == Edit(f) /\ OU
+DoTouch(f) == Touch(f) /\ OU
 Next == (\E o \in Opts : DoConstruct(o)) \/ (\E o \in Opts : DoCrash(o)) \/ DoCompile
-        \/ DoEditRoot \/ DoEditImp \/ DoTouchRoot \/ DoTouchImp
+        \/ (\E f \in Files : DoEdit(f)) \/ (\E f \in Files : DoTouch(f))
 Spec == Init /\ [][Next]_vars
 
 \* ---- what transparency demands of every completed construction (C12); TLC finds the histories that break it
 Transparent == (last.op = "construct") => (last.result = "table" /\ last.table = Fresh(last.opts))
 \* weaker facts that DO hold for the machine (checked as invariants of the design):
-NeverStale == (last.op = "construct" /\ last.result = "table") => (last.table.rver = root.ver /\ last.table.iver = imp.ver)
+NeverStale == (last.op = "construct" /\ last.result = "table") => last.table.vers = Vers
 NeverFailsOnIncompleteFile == (last.op = "construct" /\ last.result # "table") => pgc.st = "complete"
-CacheNeverOlderWhenUsed == (pgc.st = "complete") => (pgc.rver <= root.ver /\ pgc.iver <= imp.ver)
+CacheNeverOlderWhenUsed == (pgc.st = "complete") => \A f \in Files : pgc.vers[f] <= files[f].ver
 =============================================================================
